@@ -3,8 +3,6 @@
 From TV Require Import Model.Segmenter Spec.UAX14 Proofs.SegCommon Proofs.SegLCore.
 Open Scope Z_scope.
 
-Definition obs_wf_l (o : obs) : bool :=
-  Bool.eqb (o_zwjtab o) (lbc_beq (o_lb o) LB_ZWJ) && Bool.eqb (o_lf o) (lbc_beq (o_lb o) LB_LF).
 
 (* ---------- the line automaton as a projection of the cursor ---------- *)
 Record lst := mkL {
@@ -82,7 +80,7 @@ Lemma lbc_beq_refl a : lbc_beq a a = true.
 Proof. apply lbc_beq_eq. reflexivity. Qed.
 
 Lemma rule_lb1_lb1 r : rule_lb1 r (o_lb r) = lb1 r.
-Proof. reflexivity. Qed.
+Proof. unfold rule_lb1, lb1. destruct (o_lb r); reflexivity. Qed.
 
 Lemma cmz_is_mark c : lbq c LB_CM || lbq c LB_ZWJ = is_mark c.
 Proof. unfold is_mark, cin, lbq. cbn [existsb]. rewrite orb_false_r. reflexivity. Qed.
@@ -139,7 +137,7 @@ Definition linv (left : list obs) (s : lst) : Prop :=
   /\ l_ns s = num_state (numctx_of e).
 
 Lemma linv_init text : linv [] (lproj (new_cursor text)).
-Proof. unfold linv. cbn. repeat split; try reflexivity; try discriminate. intros H; contradiction. Qed.
+Proof. unfold linv. cbn. repeat split; try reflexivity; try discriminate; try (intros H; contradiction). Qed.
 
 Lemma linv_step left s r next :
   linv left s -> l_nextLine s = o_lb r ->
@@ -179,4 +177,279 @@ Proof.
       * rewrite H6, Nat.odd_succ, <- Nat.negb_odd. reflexivity.
       * reflexivity.
     + rewrite H7. symmetry. apply numctx_cons. exact Hm.
+Qed.
+
+(* ---------- the decision at one position ---------- *)
+Lemma lb1_preserved o k : (k = LB_ZWJ \/ k = LB_LF \/ k = LB_NU) -> lbc_beq (lb1 o) k = lbc_beq (o_lb o) k.
+Proof.
+  unfold lb1. intros [-> | [-> | ->]]; destruct (o_lb o); try reflexivity; destruct (o_mnmc o); reflexivity.
+Qed.
+
+Lemma line_decision_obs p0 pp b1 bs prevr base r nl ri tr :
+  line_decision p0 pp b1 bs prevr base r nl ri tr =
+  line_decision p0 pp b1 bs (fobs (o_zwjtab prevr) false false false false)
+                (fobs false false (o_wide base) (o_pic base && o_cn base) true)
+                (fobs false (o_lf r) (o_wide r) false false) nl ri tr.
+Proof.
+  unfold line_decision, rule_lb7to4, rule_lb8, rule_lb21to9, rule_lb24to22, rule_lb25, rule_lb29to26, rule_lb30ab, rule_lb30.
+  cbn [fobs o_zwjtab o_lf o_wide o_pic o_cn].
+  destruct (o_pic base), (o_cn base); reflexivity.
+Qed.
+
+Lemma line_decision_pp p0 pp b1 bs prevr base r nl ri tr :
+  line_decision p0 pp b1 bs prevr base r nl ri tr =
+  line_decision p0 (if is_lb pp LB_HL then Some LB_HL else None) b1 bs prevr base r nl ri tr.
+Proof. destruct pp as [k|]; [destruct k|]; reflexivity. Qed.
+
+Lemma line_decision_nl p0 pp b1 bs prevr base r nl ri tr :
+  line_decision p0 pp b1 bs prevr base r nl ri tr =
+  line_decision p0 pp b1 bs prevr base r (if lbc_beq nl LB_NU then LB_NU else LB_AL) ri tr.
+Proof. destruct nl; reflexivity. Qed.
+
+Lemma eff_nonempty a left' : eff (a :: left') <> [].
+Proof.
+  rewrite eff_cons. destruct (is_mark (lb1 a)); [|discriminate].
+  destruct (eff left') as [|[x o] e0]; [discriminate|]. destruct (hard_or_space x); discriminate.
+Qed.
+
+Lemma eff_no_mark : forall left c o, In (c, o) (eff left) -> is_mark c = false.
+Proof.
+  induction left as [|a left IH]; intros c o Hin; [destruct Hin|].
+  rewrite eff_cons in Hin. destruct (is_mark (lb1 a)) eqn:Hm.
+  - destruct (eff left) as [|[x ox] e0] eqn:Ee.
+    + destruct Hin as [H|[]]; inversion H; reflexivity.
+    + destruct (hard_or_space x).
+      * destruct Hin as [H|Hin]; [inversion H; reflexivity | eapply IH; exact Hin].
+      * eapply IH; exact Hin.
+  - destruct Hin as [H|Hin]; [inversion H; subst; exact Hm | eapply IH; exact Hin].
+Qed.
+
+Lemma skip_sp_head e : eis (skip_sp e) [LB_SP] = false.
+Proof.
+  induction e as [|[c o] r IH]; [reflexivity|]. cbn [skip_sp].
+  destruct (lbc_beq c LB_SP) eqn:E; [exact IH|]. cbn. rewrite E. reflexivity.
+Qed.
+
+Lemma zwsp_eff : forall left,
+  match skip_sp_raw left with o :: _ => lbc_beq (lb1 o) LB_ZW | [] => false end = eis (skip_sp (eff left)) [LB_ZW].
+Proof.
+  induction left as [|a left IH]; [reflexivity|].
+  rewrite eff_cons. cbn [skip_sp_raw].
+  destruct (lbc_beq (lb1 a) LB_SP) eqn:Esp.
+  - apply lbc_beq_eq in Esp. rewrite Esp. cbn [is_mark cin existsb lbc_beq orb skip_sp]. exact IH.
+  - destruct (is_mark (lb1 a)) eqn:Hm.
+    + assert (Hz : lbc_beq (lb1 a) LB_ZW = false) by (destruct (lb1 a); try discriminate Hm; reflexivity).
+      rewrite Hz.
+      destruct (eff left) as [|[x ox] e0] eqn:Ee; [reflexivity|].
+      destruct (hard_or_space x) eqn:Hx; [reflexivity|].
+      cbn [skip_sp]. destruct (lbc_beq x LB_SP) eqn:Ex.
+      * apply lbc_beq_eq in Ex. subst x. discriminate Hx.
+      * cbn. destruct x; try reflexivity; discriminate Hx.
+    + cbn [skip_sp]. rewrite Esp. cbn. rewrite orb_false_r. reflexivity.
+Qed.
+
+Definition flags_of (d : lbr) : bool * bool :=
+  match d with Mandatory => (true, true) | Allowed => (true, false) | Prohibited => (false, false) end.
+
+Lemma bo_flags_lbr bo : bo_flags bo = flags_of (to_lbr bo).
+Proof. destruct bo; reflexivity. Qed.
+
+Lemma ldecision a left' s r next right' :
+  linv (a :: left') s -> l_nextLine s = o_lb r ->
+  obs_wf_l a = true -> obs_wf_l r = true ->
+  next = match right' with [] => obs_psep | n :: _ => n end ->
+  f3_position (a :: left') (r :: right') = false ->
+  snd (lstep s r next) = flags_of (lb_decision (a :: left') (r :: right')).
+Proof.
+  intros (H1 & H2 & H3 & H4 & H5 & H6 & H7) Hn Hwa Hwr Hnext Hf3.
+  unfold lstep. cbv zeta. cbn [snd]. rewrite bo_flags_lbr. f_equal.
+  rewrite Hn, rule_lb1_lb1, H1, H2, H4, H6, H7. cbn [hd].
+  specialize (H5 (eff_nonempty a left')).
+  rewrite H5.
+  set (e := eff (a :: left')) in *.
+  destruct e as [|[p bo] e1] eqn:Ee; [exfalso; exact (eff_nonempty a left' Ee)|].
+  cbn [ecls hd snd] in *.
+  rewrite line_decision_obs, line_decision_pp, line_decision_nl.
+  unfold obs_wf_l in Hwa, Hwr.
+  apply andb_true_iff in Hwa as [Hwa1 Hwa2]. apply andb_true_iff in Hwr as [Hwr1 Hwr2].
+  apply eqb_prop in Hwa1, Hwr2.
+  rewrite Hwa1, Hwr2.
+  rewrite <- (lb1_preserved a LB_ZWJ) by auto. rewrite <- (lb1_preserved r LB_LF) by auto.
+  (* the specification side *)
+  unfold lb_decision.
+  set (a0k := if is_mark (lb1 a) then Some (lbc_beq (lb1 a) LB_ZWJ) else None).
+  set (sv := ecls (skip_sp ((p, bo) :: e1))).
+  set (nx := negb (is_mark (lb1 r)) && match skip_marks right' with o :: _ => lbc_beq (lb1 o) LB_NU | [] => false end).
+  assert (Hx : ctx_of a left' r right' =
+               mk_x p (lb1 r) a0k sv (eis e1 [LB_HL]) (o_wide bo) (o_pic bo && o_cn bo) (o_wide r)
+                    (Nat.odd (leading_ri ((p, bo) :: e1))) (numctx_of ((p, bo) :: e1)) nx).
+  { unfold ctx_of, mk_x. fold e. rewrite Ee. cbn [tl base_wide base_pic_cn].
+    f_equal.
+    - (* a0 *)
+      unfold a0k. pose proof (eff_cons a left') as Hc. fold e in Hc. rewrite Ee in Hc.
+      destruct (is_mark (lb1 a)) eqn:Hm.
+      + destruct (lbc_beq (lb1 a) LB_ZWJ) eqn:Ez; [apply lbc_beq_eq; exact Ez|].
+        destruct (lb1 a); try discriminate Hm; try reflexivity; discriminate Ez.
+      + inversion Hc. reflexivity.
+    - (* zwsp *)
+      rewrite zwsp_eff. fold e. rewrite Ee. fold sv.
+      destruct (lbc_beq p LB_SP) eqn:Esp.
+      + unfold eis. destruct sv as [k|] eqn:Esv.
+        * unfold sv in Esv. destruct (skip_sp ((p, bo) :: e1)) as [|[k' o'] r'] eqn:Es; [discriminate|].
+          cbn in Esv. inversion Esv; subst. cbn. rewrite orb_false_r. reflexivity.
+        * unfold sv in Esv. destruct (skip_sp ((p, bo) :: e1)) as [|[k' o'] r']; [reflexivity | discriminate].
+      + cbn [skip_sp]. rewrite Esp. cbn. rewrite orb_false_r. reflexivity.
+    - (* s *)
+      unfold sv. cbn [skip_sp]. destruct (lbc_beq p LB_SP); reflexivity. }
+  rewrite Hx.
+  (* the model side is model_core on the same context *)
+  transitivity (to_lbr (model_core (mk_x p (lb1 r) a0k sv (eis e1 [LB_HL]) (o_wide bo) (o_pic bo && o_cn bo) (o_wide r)
+                    (Nat.odd (leading_ri ((p, bo) :: e1))) (numctx_of ((p, bo) :: e1)) nx)
+                    (is_lb (l_pp s) LB_HL) (lbc_beq (o_lb next) LB_NU))).
+  { unfold model_core, mk_x. cbn [x_p x_b0 x_s x_a0 x_base_wide x_base_piccn x_b_wide x_ri_odd x_num].
+    f_equal. f_equal.
+    - (* before spaces *)
+      unfold sv. cbn [skip_sp]. destruct (lbc_beq p LB_SP); reflexivity.
+    - (* prev rune: ZWJ table *)
+      unfold a0k. f_equal.
+      pose proof (eff_cons a left') as Hc. fold e in Hc. rewrite Ee in Hc.
+      destruct (is_mark (lb1 a)) eqn:Hm.
+      + destruct (lbc_beq (lb1 a) LB_ZWJ); reflexivity.
+      + inversion Hc. reflexivity. }
+  apply core_agree.
+  - (* mk_ok *)
+    unfold mk_ok. rewrite (eff_no_mark (a :: left') p bo) by (fold e; rewrite Ee; left; reflexivity).
+    cbn [negb andb].
+    apply andb_true_iff. split.
+    + unfold a0k. pose proof (eff_cons a left') as Hc. fold e in Hc. rewrite Ee in Hc.
+      destruct (is_mark (lb1 a)) eqn:Hm; [|reflexivity].
+      destruct (eff left') as [|[x ox] e0].
+      * inversion Hc. reflexivity.
+      * destruct (hard_or_space x) eqn:Hxh; inversion Hc; subst; [reflexivity | rewrite Hxh; reflexivity].
+    + destruct (lbc_beq p LB_SP) eqn:Esp; [|reflexivity]. cbn [negb orb].
+      pose proof (skip_sp_head ((p, bo) :: e1)) as Hs. fold sv in Hs || idtac.
+      unfold sv. destruct (skip_sp ((p, bo) :: e1)) as [|[k o'] r'] eqn:Es; [reflexivity|].
+      cbn in Hs |- *. rewrite orb_false_r in Hs. rewrite Hs. reflexivity.
+  - (* guards *)
+    unfold guards. apply andb_true_iff. split.
+    + destruct (cin p [LB_HY; LB_BA]) eqn:Ehb; [|reflexivity]. cbn [negb orb].
+      rewrite H3 by (cbn; exact Ehb). cbn [tl]. apply eqb_reflx.
+    + destruct (cin p [LB_PR; LB_PO] && cin (lb1 r) [LB_OP; LB_HY]) eqn:Eg; [|reflexivity]. cbn [negb orb].
+      apply andb_true_iff in Eg as [Eg1 Eg2].
+      assert (Hnm : is_mark (lb1 r) = false) by (destruct (lb1 r); try discriminate Eg2; reflexivity).
+      unfold nx. rewrite Hnm. cbn [negb andb].
+      rewrite Hnext. destruct right' as [|n right''].
+      * reflexivity.
+      * rewrite <- (lb1_preserved n LB_NU) by auto.
+        cbn [skip_marks]. destruct (is_mark (lb1 n)) eqn:Hmn.
+        -- (* the next rune is a mark: excluded pattern unless no NU follows *)
+           assert (E1 : lbc_beq (lb1 n) LB_NU = false) by (destruct (lb1 n); try discriminate Hmn; reflexivity).
+           rewrite E1.
+           unfold f3_position in Hf3. fold e in Hf3. rewrite Ee in Hf3.
+           cbn [eis] in Hf3. rewrite Eg1, Eg2, Hmn in Hf3. cbn [andb] in Hf3.
+           cbn [skip_marks] in Hf3. rewrite Hmn in Hf3. rewrite Hf3. reflexivity.
+        -- apply eqb_reflx.
+Qed.
+
+(* ---------- the whole text ---------- *)
+Definition lflags (a : attr) : bool * bool := (a_line a, a_mandatory a).
+
+Lemma setif_nm c v b : b <> breakMandatory -> v <> breakMandatory -> setif c v b <> breakMandatory.
+Proof. unfold setif. destruct c; auto. Qed.
+
+Lemma first_not_mandatory pp b1 bs prevr base r nl ri tr :
+  line_decision None pp b1 bs prevr base r nl ri tr <> breakMandatory.
+Proof.
+  unfold line_decision, rule_lb7to4, rule_lb8, rule_lb21to9, rule_lb24to22, rule_lb25, rule_lb29to26, rule_lb30ab, rule_lb30.
+  cbn [is_lb orb andb]. unfold setif at 1. cbn [orb andb].
+  repeat (apply setif_nm; [|discriminate]). discriminate.
+Qed.
+
+Lemma lrun_nonempty s rest : srun lstep s rest <> [].
+Proof. destruct rest; cbn; discriminate. Qed.
+Lemma lb_positions_nonempty left right : lb_positions left right <> [].
+Proof. destruct right; cbn; discriminate. Qed.
+
+Lemma last_lb_positions : forall right left, last (lb_positions left right) Allowed = Mandatory.
+Proof.
+  induction right as [|o r IH]; intros left.
+  - cbn. destruct left; reflexivity.
+  - cbn [lb_positions].
+    assert (H : forall x (l : list lbr), l <> [] -> last (x :: l) Allowed = last l Allowed) by (intros x [|y l] Hl; [contradiction | reflexivity]).
+    rewrite H by apply lb_positions_nonempty. apply IH.
+Qed.
+
+Definition next_lb (rest : list obs) : lbc := match rest with [] => o_lb obs_psep | n :: _ => o_lb n end.
+
+Lemma lrun_body : forall rest left s,
+  linv left s -> left <> [] -> l_nextLine s = next_lb rest ->
+  forallb obs_wf_l left = true -> forallb obs_wf_l rest = true ->
+  f3_free_from left rest = true ->
+  removelast (srun lstep s rest) = removelast (map flags_of (lb_positions left rest)).
+Proof.
+  induction rest as [|r rest IH]; intros left s Hinv Hne Hnl Hl Hr Hf.
+  - reflexivity.
+  - cbn [forallb] in Hr. apply andb_true_iff in Hr as [Hwr Hr].
+    cbn [f3_free_from] in Hf. apply andb_true_iff in Hf as [Hf1 Hf]. apply negb_true_iff in Hf1.
+    cbn [srun lb_positions map].
+    set (next := match rest with [] => obs_psep | n :: _ => n end).
+    rewrite !removelast_cons by (apply lrun_nonempty || (intros E; apply map_eq_nil in E; revert E; apply lb_positions_nonempty)).
+    destruct left as [|a left']; [contradiction|].
+    cbn [forallb] in Hl. apply andb_true_iff in Hl as [Hwa Hl'].
+    cbn [next_lb] in Hnl.
+    rewrite (ldecision a left' s r next rest Hinv Hnl Hwa Hwr eq_refl Hf1).
+    f_equal.
+    destruct (linv_step (a :: left') s r next Hinv Hnl) as (Hinv' & Hnl').
+    apply IH; try assumption.
+    + discriminate.
+    + rewrite Hnl'. unfold next, next_lb. destruct rest; reflexivity.
+    + cbn [forallb]. rewrite Hwr, Hwa, Hl'. reflexivity.
+Qed.
+
+Lemma line_lemma text :
+  forallb obs_wf_l text = true -> f3_free text = true ->
+  exists attrs, compute_attrs text = Ok attrs /\ map lflags attrs = map flags_of (lb_spec text).
+Proof.
+  intros Hwf Hf3. unfold compute_attrs.
+  destruct (loop_total text (new_cursor text) 0 [] ltac:(lia) (wne_ok_new text)) as (attrs & E & L).
+  rewrite E. cbn [bind]. eexists; split; [reflexivity|].
+  assert (HI0 : linv_i (new_cursor text) 0) by (unfold linv_i; cbn; split; auto).
+  pose proof (loop_trace lproj lstep lflags linv_i (fun a => eq_refl) linv_i_step step_lproj
+                         text (new_cursor text) 0 [] attrs ltac:(lia) HI0 E) as Ht.
+  cbn [map app] in Ht.
+  unfold lb_spec.
+  destruct text as [|r0 rest].
+  - destruct attrs as [|a [|b l]]; cbn in L; try lia. reflexivity.
+  - cbn [forallb] in Hwf. apply andb_true_iff in Hwf as [Hw0 Hwr].
+    unfold f3_free in Hf3. cbn [f3_free_from] in Hf3. apply andb_true_iff in Hf3 as [_ Hf3].
+    cbn [srun] in Ht.
+    set (next := match rest with [] => obs_psep | n :: _ => n end) in Ht.
+    destruct attrs as [|a0 tl]; [discriminate|].
+    cbn [map] in Ht.
+    assert (Ha0 : lflags a0 = snd (lstep (lproj (new_cursor (r0 :: rest))) r0 next)) by congruence.
+    assert (Htl : map lflags tl = srun lstep (fst (lstep (lproj (new_cursor (r0 :: rest))) r0 next)) rest) by congruence.
+    clear Ht.
+    assert (Hne : tl <> []). { intros ->. symmetry in Htl. revert Htl. apply lrun_nonempty. }
+    destruct tl as [|a1 tl']; [contradiction|].
+    assert (Hm : a_mandatory a0 = false).
+    { (* position 0 is never mandatory *)
+      apply (f_equal snd) in Ha0. unfold lflags in Ha0. cbn [snd] in Ha0. rewrite Ha0.
+      unfold lstep. cbv zeta. cbn [snd].
+      match goal with |- snd (bo_flags ?d) = false => destruct d eqn:Hd end; try reflexivity.
+      exfalso. cbn [lproj new_cursor l_p0 c_prevLine] in Hd. revert Hd. apply first_not_mandatory. }
+    unfold fixups.
+    rewrite (map_map_last lflags (true, true) (fun a => eq_refl)) by discriminate.
+    change (map lflags (fix_first a0 :: a1 :: tl')) with ((false, a_mandatory a0) :: map lflags (a1 :: tl')).
+    rewrite removelast_cons by discriminate. cbn [app].
+    cbn [lb_positions lb_decision map flags_of].
+    rewrite Hm. f_equal.
+    rewrite (app_removelast_last' (lb_positions [r0] rest) Allowed) by apply lb_positions_nonempty.
+    rewrite last_lb_positions, map_app. cbn [map flags_of].
+    f_equal. change (lflags a1 :: map lflags tl') with (map lflags (a1 :: tl')). rewrite Htl.
+    destruct (linv_step [] (lproj (new_cursor (r0 :: rest))) r0 next (linv_init _) eq_refl) as (Hinv1 & Hnl1).
+    rewrite (lrun_body rest [r0] _ Hinv1); try assumption.
+    + rewrite map_removelast. reflexivity.
+    + discriminate.
+    + rewrite Hnl1. unfold next, next_lb. destruct rest; reflexivity.
+    + cbn [forallb]. rewrite Hw0. reflexivity.
 Qed.
